@@ -87,6 +87,27 @@ func write(srv *lrsrv.Srv, tags string, msgs ...string) error {
 	return wr.Err
 }
 
+// waitConfirmed polls until the partition reports n readable records (a fixed sleep is not enough on a loaded
+// machine: the flush goroutine can be late, and a record confirmed after a tail reader started is "new" for it).
+func waitConfirmed(srv *lrsrv.Srv, tags string, n int) bool {
+	deadline := time.Now().Add(6 * time.Second)
+	for {
+		if pi, err := srv.Parts.GetParitionInfo(tags); err == nil {
+			got := 0
+			for _, c := range pi.Chunks {
+				got += int(c.Records)
+			}
+			if got >= n {
+				return true
+			}
+		}
+		if time.Now().After(deadline) {
+			return false
+		}
+		time.Sleep(3 * time.Millisecond)
+	}
+}
+
 type qres struct {
 	msgs []string
 	next api.QueryRequest
@@ -139,7 +160,7 @@ func f11child(mode string) {
 		return
 	}
 	write(srv, "present=yes", "e0") // some other partition exists
-	srv.FlushWait()
+	waitConfirmed(srv, "present=yes", 1)
 	fmt.Println("ready")
 	var r qres
 	switch mode {
@@ -313,7 +334,9 @@ func runParked(c parkedCase, idx int, sec *vh.Section) {
 		}
 		write(srv, tags(i), ms...)
 	}
-	time.Sleep(time.Duration(flushMs*2+20) * time.Millisecond)
+	for i := 0; i < c.Parts; i++ {
+		waitConfirmed(srv, tags(i), stored)
+	}
 	timeout := 5
 	if c.Order == "S" {
 		timeout = 1
@@ -355,8 +378,8 @@ func runParked(c parkedCase, idx int, sec *vh.Section) {
 			}
 			toks = append(toks, fmt.Sprintf("A%d", c.N))
 		case 'F':
-			// wait until the flush has certainly confirmed the records
-			time.Sleep(time.Duration(flushMs*2+30) * time.Millisecond)
+			// wait until the flush has confirmed the records
+			waitConfirmed(srv, tags(c.Target), stored+c.N)
 			readable = time.Now()
 			toks = append(toks, "F")
 		case 'S':
@@ -420,7 +443,7 @@ func sectionParked(rng *vh.Rng, corpus []parkedCase) {
 	orders := []string{"AFS", "ASF", "SAF", "S"}
 	reps := 3
 	if args.Thorough {
-		reps = 14
+		reps = 40
 	}
 	for rep := 0; rep < reps; rep++ {
 		for _, o := range orders {
@@ -467,7 +490,8 @@ func runNomatch(c nomatchCase, idx int, sec *vh.Section) {
 	defer srv.Stop()
 	write(srv, "grp=a,part=p0", "old0", "old1 x")
 	write(srv, "grp=b,part=p0", "other0")
-	srv.FlushWait()
+	waitConfirmed(srv, "grp=a,part=p0", 2)
+	waitConfirmed(srv, "grp=b,part=p0", 1)
 	q := "select from grp=a limit 10"
 	if c.Kind != "other-partition" {
 		q = "select from grp=a where msg contains \"x\" limit 10"
@@ -524,7 +548,7 @@ func sectionNomatch() {
 	i := 0
 	reps := 1
 	if args.Thorough {
-		reps = 6
+		reps = 12
 	}
 	for rep := 0; rep < reps; rep++ {
 		for _, k := range []string{"other-partition", "where-rejected", "where-accepted"} {
@@ -565,7 +589,10 @@ func runB2B(c b2bCase, idx int, sec *vh.Section) {
 	for i := 0; i < c.Parts; i++ {
 		write(srv, fmt.Sprintf("grp=bb,part=p%d", i), fmt.Sprintf("old%d", i))
 	}
-	srv.FlushWait()
+	for i := 0; i < c.Parts; i++ {
+		waitConfirmed(srv, fmt.Sprintf("grp=bb,part=p%d", i), 1)
+	}
+	perPart := make([]int, c.Parts)
 	// the cursor's starting point: the end of what is stored now
 	first := query(srv, api.QueryRequest{Query: "select from grp=bb limit 10", Pos: "tail", WaitTimeout: 0, Limit: 10}, c.RPC)
 	if first.err != nil || len(first.msgs) != 0 {
@@ -582,9 +609,11 @@ func runB2B(c b2bCase, idx int, sec *vh.Section) {
 		d := c.Delays[round%len(c.Delays)]
 		var readable time.Time
 		var mu sync.Mutex
+		perPart[part]++
+		wantN := 1 + perPart[part]
 		wr := func() {
 			write(srv, fmt.Sprintf("grp=bb,part=p%d", part), msg)
-			srv.FlushWait()
+			waitConfirmed(srv, fmt.Sprintf("grp=bb,part=p%d", part), wantN)
 			mu.Lock()
 			readable = time.Now()
 			mu.Unlock()
@@ -646,7 +675,7 @@ func sectionB2B(rng *vh.Rng) {
 		"one cursor followed through NextQueryRequest for 3..5 rounds over 1..3 partitions, via backend.Querier and via the RPC client (rpc.ServerQuerier); per round one event is written either before the request (already readable) or 30..120 ms after the request started (the reader sleeps by then; the racy window between end-of-data check and subscription is covered deterministically by section parked); every round must return exactly the new event within 1.5 s of its becoming readable; non-trivial = every case")
 	n := 12
 	if args.Thorough {
-		n = 60
+		n = 160
 	}
 	var wg sync.WaitGroup
 	sem := make(chan struct{}, 12)
@@ -679,7 +708,7 @@ func sectionContract(rng *vh.Rng) {
 	defer srv.Stop()
 	tags := "grp=ct"
 	write(srv, tags, "a", "b", "c")
-	srv.FlushWait()
+	waitConfirmed(srv, tags, 3)
 	_, jr, err := srv.Parts.GetJournal(context.Background(), mustSrc(srv, tags))
 	if err != nil {
 		res.Note("contract: %v", err)
@@ -690,7 +719,7 @@ func sectionContract(rng *vh.Rng) {
 	end := int(last.Count())
 	n := 12
 	if args.Thorough {
-		n = 60
+		n = 160
 	}
 	for i := 0; i < n; i++ {
 		idx := rng.PickI([]int{0, 1, end - 1, end, end + 1, end + 5})
